@@ -109,7 +109,8 @@ mask `sc 'y' i`; unrelated output key `sc 'x' i • G`.
 `<out>` = `g.<count>` (filler run) | `X` (unrelated valid key) | `<dest>.<deriv>.<tag>.<shift>.<amount>[.<corrupt>]` with
 dest `P` (this wallet's primary address) | `F` (foreign wallet) | `S<i>/<j>`; deriv `m` (main secret) | `a` | `a<k>` (own
 secret, published as additional key, plus k·T); tag `t` right | `w` wrong | `n` absent; shift: the position the sender used
-is index+shift; corrupt `e` (ecdh amount bit 0) | `k` (legacy ecdh mask bit 0) | `c` (commitment bit 0). -/
+is index+shift; corrupt `e` (ecdh amount bit 0) | `k` (legacy ecdh mask bit 0) | `c` (commitment bit 0) | `a` (RingCT output whose CLEAR amount field is
+non-zero, 77 + position: the reported amount must still be the opened one). -/
 namespace Scen
 open Spec.Sender hiding Bytes
 open Spec.Amounts
@@ -232,9 +233,9 @@ def buildOut (h : Hdr) (v : Nat) (S : Ed.Pt) (pos : Nat) (o : OutD) : Built :=
     let comm := if ringct h then (if r.corrupt == 'c' then flip0 C else C) else h.fill
     let recognisable := r.shift == 0 && r.tag != 'w' &&
       (match idx? with | some idx => inRange h idx | none => false)
-    ⟨if ringct h then 0 else r.amount, key, tag, addKey, ecdh, comm,
+    ⟨if ringct h then (if r.corrupt == 'a' then 77 + pos else 0) else r.amount, key, tag, addKey, ecdh, comm,
       if recognisable then idx?.map fun idx => (idx, r.own, y, C) else none,
-      ringct h && r.corrupt != '-'⟩
+      ringct h && r.corrupt != '-' && r.corrupt != 'a'⟩
 
 def zipIdx {α} (l : List α) : List (Nat × α) := (List.range l.length).zip l
 
@@ -314,7 +315,16 @@ def parseMain (s : String) : Option (Option (Nat × Nat) × Nat) :=
   | 's' :: r => (parseIdx (String.ofList r)).map fun ij => (some ij, k)
   | _ => none
 
-def run (toks : List String) : Option (String × String) :=
+/-- C09 through the scanner: `OwnedTxOut::recover_key` (= `KeyRecoverer::new(keys, tx_pubkey).recover(index, sub_index)`)
+on every output the scan model reports, with the wallet's spend secret -/
+def showRecover (v s : Nat) : Except ScanErr (List Owned) → String
+  | .error e => "err " ++ errName e
+  | .ok ws => " ".intercalate (s!"ok {ws.length}" :: ws.map fun w =>
+      match Drv.decodeKey w.txKey with
+      | some R => s!"{w.index}:{hx (scalarBytes (recoverKey Drv.refOps v s R w.index w.sub.1 w.sub.2))}"
+      | none => s!"{w.index}:bad-key")
+
+def run (recover : Bool) (toks : List String) : Option (String × String) :=
   match toks with
   | seed :: a :: b :: c :: d :: ver :: rct :: main :: extra :: T :: fill :: outs => do
     let a ← a.toNat?; let b ← b.toNat?; let c ← c.toNat?; let d ← d.toNat?
@@ -330,8 +340,9 @@ def run (toks : List String) : Option (String × String) :=
     let hash := hx ((Keccak.keccak256 ser).take 8)
     let v := sc h.seed 'v' 0
     let S := Ed.smul (sc h.seed 's' 0) G
-    let model := showScan (checkOutputsPrefix Drv.refOps decP p v S a b c d base)
-    some (hash ++ " " ++ model, hash ++ " " ++ expected h t ods)
+    let scan := checkOutputsPrefix Drv.refOps decP p v S a b c d base
+    if recover then some (hash ++ " " ++ showRecover v (sc h.seed 's' 0) scan, "-")
+    else some (hash ++ " " ++ showScan scan, hash ++ " " ++ expected h t ods)
   | _ => none
 end Scen
 end Drv.C07
@@ -372,6 +383,7 @@ def stepC07 : Step
         | some C => specOpen v R n (Hex.decode e) C
       some (showOpen model, showOpen spec) : Option (String × String))
     some (res.getD ("bad-input", "bad-input"))
-  | "c07_scenario" :: rest => some ((Scen.run rest).getD ("bad-input", "bad-input"))
+  | "c07_scenario" :: rest => some ((Scen.run false rest).getD ("bad-input", "bad-input"))
+  | "c09_scenario" :: rest => some ((Scen.run true rest).getD ("bad-input", "-"))
   | _ => none
 end Drv
